@@ -123,8 +123,11 @@ SAMPLES = [
 ]
 
 def sample_strings(oracle, fmt, upto):
+    import os
+    from shapes import gen_concrete
     out = []
-    for v in SAMPLES[:upto]:
+    extra = gen_concrete(9, os.environ.get('VERIF_SEED', '0') or '0') if upto >= len(SAMPLES) else []          # thorough tiers: + generated nested samples
+    for v in SAMPLES[:upto] + extra:
         st, s = oracle.ask('format', fmt, narsese_tokens(v))
         if st == 'ok': out.append(s)
     return out
